@@ -95,6 +95,7 @@ func boundsRun(c *Ctx, entries []*ssa.Function, hooks *bounds.Hooks) int {
 		o       *bounds.Oblig
 		failVia []string // entries in whose context the obligation is not discharged
 		details map[string]string
+		fails   map[string]map[int]bool // per entry: sub-goals not entailed
 	}
 	merged := map[string]*agg{}
 	var order []string
@@ -117,7 +118,7 @@ func boundsRun(c *Ctx, entries []*ssa.Function, hooks *bounds.Hooks) int {
 			if a == nil {
 				cp := *o
 				cp.OK = true
-				a = &agg{o: &cp, details: map[string]string{}}
+				a = &agg{o: &cp, details: map[string]string{}, fails: map[string]map[int]bool{}}
 				a.o.Contexts = 0
 				merged[k] = a
 				order = append(order, k)
@@ -127,6 +128,7 @@ func boundsRun(c *Ctx, entries []*ssa.Function, hooks *bounds.Hooks) int {
 				via := core.FuncName(uniq[i])
 				a.failVia = append(a.failVia, via)
 				a.details[via] = o.Detail
+				a.fails[via] = o.Fails
 			}
 		}
 		for f := range res.eng.Funcs() {
@@ -187,7 +189,7 @@ func boundsRun(c *Ctx, entries []*ssa.Function, hooks *bounds.Hooks) int {
 		sort.Strings(a.failVia)
 		for _, via := range a.failVia {
 			n++
-			t := text
+			t := text + partSuffix(o.Kind, a.fails[via])
 			if via != fname {
 				t += " [via " + via + "]"
 			}
@@ -201,6 +203,31 @@ func boundsRun(c *Ctx, entries []*ssa.Function, hooks *bounds.Hooks) int {
 	r.Infof("BOUNDS: %d entries, %d functions, %d obligations, %d entailment queries, %d feasibility queries, %d instruction steps, %.1fs wall (K=%d depth=%d)",
 		len(uniq), len(nfuncs), n, totalEn, totalFe, totalSt, time.Since(t0).Seconds(), cfg.K, cfg.MaxDepth)
 	return n
+}
+
+// partNames: the sub-goals of the multi-goal obligation kinds, in the order the interpreter builds them.
+var partNames = map[string][]string{
+	"IDX": {"index>=0", "index<len"},
+	"SLC": {"low>=0", "low<=high", "high<=max", "max<=cap"},
+	"MK":  {"len>=0", "len<=cap"},
+}
+
+// partSuffix names the sub-goals that are not entailed: part of the key of an undischarged obligation.
+func partSuffix(kind string, fails map[int]bool) string {
+	names := partNames[kind]
+	if len(names) == 0 || len(fails) == 0 {
+		return ""
+	}
+	var parts []string
+	for i, nm := range names {
+		if fails[i] {
+			parts = append(parts, nm)
+		}
+	}
+	if len(parts) == 0 {
+		return ""
+	}
+	return " {" + strings.Join(parts, ", ") + "}"
 }
 
 // entryK lowers the disjunct cap for entries whose path count makes K=64 too slow for the quick
